@@ -1,5 +1,5 @@
 #!/bin/sh
-# tools/try_tie.sh <psi|filters|packet|pes|iters|pmt|tables> <repo-dir>: translate <repo-dir>/src with the statement translator
+# tools/try_tie.sh <psi|filters|packet|pes|iters|pmt|tables|push> <repo-dir>: translate <repo-dir>/src with the statement translator
 # into a private directory and check its tie module against it (nothing under /verif/lean is written).
 K=$1; R=${2:-/repo}; TIE2=
 case $K in
@@ -10,7 +10,8 @@ case $K in
   iters) TOOL=gen_iters.py; VAR=VERIF_GEN_ITERS_OUT; GEN=ItersGen; TIE=StmtIters;;
   pmt) TOOL=gen_pmt.py; VAR=VERIF_GEN_PMT_OUT; GEN=PmtGen; TIE=StmtPmt;;
   tables) TOOL=gen_tables.py; VAR=VERIF_GEN_TABLES_OUT; GEN=TablesGen; TIE=StmtTables; TIE2=StmtTablesPmt;;
-  *) echo "usage: try_tie.sh psi|filters|packet|pes|iters|pmt|tables <repo>"; exit 2;;
+  push) TOOL=gen_push.py; VAR=VERIF_GEN_PUSH_OUT; GEN=PushGen; TIE=StmtPush;;
+  *) echo "usage: try_tie.sh psi|filters|packet|pes|iters|pmt|tables|push <repo>"; exit 2;;
 esac
 T=$(mktemp -d /tmp/tietry.XXXXXX)
 mkdir -p $T/lib
